@@ -2,54 +2,50 @@
 (***************************************************************************)
 (* The user-visible contract of badger (non-managed and managed mode): a   *)
 (* multi-version map with snapshot reads, SSI commits, expiry, per-txn     *)
-(* pending writes and iterators.  Mechanism modules (Oracle, LSM, Disk)    *)
-(* refine it; BadgerKVGen generates API histories with the observations    *)
-(* this module predicts, which the Go harness replays against the real DB. *)
+(* pending writes, iterators with options, rejected commits, the discard   *)
+(* watermark and the retention contract of compaction.  Mechanism modules  *)
+(* (Oracle, LSM, Disk) refine it; BadgerKVGen generates API histories with *)
+(* the observations this module predicts, which the Go harness replays     *)
+(* against the real DB.                                                    *)
 (*                                                                         *)
-(* Code anchors: txn.go (Txn.Get/SetEntry/Delete/Commit, oracle.readTs,    *)
-(* oracle.newCommitTs/hasConflict), iterator.go (Iterator, Item), db.go    *)
-(* (DB.get).                                                               *)
+(* Code anchors: txn.go (Txn.Get/SetEntry/Delete/Commit/CommitWith,        *)
+(* oracle.readTs/newCommitTs/hasConflict/setDiscardTs/discardAtOrBelow),   *)
+(* iterator.go (Iterator, Item), db.go (DB.get, sendToWriteCh),            *)
+(* managed_db.go (NewTransactionAt, CommitAt, SetDiscardTs), levels.go     *)
+(* (subcompact retention rule).  Pure operators live in KVDefs.            *)
 (***************************************************************************)
-EXTENDS Integers, Sequences, FiniteSets, TLC
+EXTENDS KVDefs
 
-CONSTANTS Keys,       \* finite set of naturals; key order = numeric order
-          Txns,       \* finite set of transaction ids
+CONSTANTS Txns,       \* finite set of transaction ids
           MaxTs,      \* bound on commit timestamps
           MaxNow,     \* bound on the abstract clock
           Managed,    \* BOOLEAN: managed mode (caller-chosen timestamps)
           UMs, Exps, Discs,  \* user-meta bytes, expiry times (0 = none), discard flags a Set may use
-          IterDirs    \* subset of BOOLEAN: iterator directions explored (reverse?)
+          IterDirs,   \* subset of BOOLEAN: iterator directions explored (reverse?)
+          Feat        \* features explored by Next: subset of {"iter", "split", "reject", "compact", "discard", "restart"}
 
 VARIABLES committed,  \* set of entries [k, ts, val, del, um, exp, disc]
           nextTs,     \* oracle.nextTxnTs
           txn,        \* per-transaction record
           now,        \* abstract clock (unix seconds in the code)
-          nval        \* fresh value counter: every Set writes a distinct value
+          nval,       \* fresh value counter: every Set writes a distinct value
+          discardTs,  \* oracle.discardTs (managed mode, DB.SetDiscardTs)
+          hw,         \* ghost: largest discard bound any compaction has run with
+          clog        \* oracle.committedTxns: the <<key, commit ts>> pairs conflict detection remembers
 
-vars == <<committed, nextTs, txn, now, nval>>
+vars == <<committed, nextTs, txn, now, nval, discardTs, hw, clog>>
 
-None == [k |-> 0, ts |-> 0, val |-> 0, del |-> FALSE, um |-> 0, exp |-> 0, disc |-> FALSE]
-Absent == [found |-> FALSE, val |-> 0, ts |-> 0, um |-> 0, exp |-> 0]
-
-Max(S) == CHOOSE x \in S : \A y \in S : y <= x
-
-Dead(e, t) == e.del \/ (e.exp # 0 /\ e.exp <= t)
-
-\* newest committed entry of k at or below ts (if any)
-Cands(S, k, ts) == {e \in S : e.k = k /\ e.ts <= ts}
-Top(S, k, ts) == CHOOSE e \in Cands(S, k, ts) : \A f \in Cands(S, k, ts) : f.ts <= e.ts
-Obs(e) == [found |-> TRUE, val |-> e.val, ts |-> e.ts, um |-> e.um, exp |-> e.exp]
-ReadAt(S, k, ts, t) ==
-    IF Cands(S, k, ts) = {} THEN Absent
-    ELSE LET e == Top(S, k, ts) IN IF Dead(e, t) THEN Absent ELSE Obs(e)
+NoIter == [open |-> FALSE, o |-> NoOpts, pw |-> [k \in Keys |-> None], phw |-> {}]
 
 IdleTxn == [st |-> "idle", upd |-> FALSE, readTs |-> 0, reads |-> {}, writes |-> [k \in Keys |-> None],
-            haswr |-> {}, cts |-> 0, obs |-> {}]
+            haswr |-> {}, cts |-> 0, obs |-> {}, it |-> NoIter]
 
 TypeOK ==
     /\ nextTs \in 1..(MaxTs + 1)
     /\ now \in 0..MaxNow
-    /\ \A t \in Txns : txn[t].st \in {"idle", "active", "committed", "conflict", "discarded"}
+    /\ discardTs \in 0..MaxTs
+    /\ hw \in 0..MaxTs
+    /\ \A t \in Txns : txn[t].st \in {"idle", "active", "committed", "conflict", "rejected", "discarded"}
 
 Init ==
     /\ committed = {}
@@ -57,8 +53,12 @@ Init ==
     /\ txn = [t \in Txns |-> IdleTxn]
     /\ now = 1
     /\ nval = 1
+    /\ discardTs = 0
+    /\ hw = 0
+    /\ clog = {}
 
 Active(t) == txn[t].st = "active"
+ActiveSet == {t \in Txns : Active(t)}
 
 \* ---- transaction start: oracle.readTs (normal) / NewTransactionAt (managed)
 InOrder(t) == \A u \in Txns : u < t => txn[u].st # "idle"
@@ -67,20 +67,26 @@ Begin(t, upd) ==
     /\ ~Managed
     /\ txn[t].st = "idle" /\ InOrder(t)
     /\ txn' = [txn EXCEPT ![t] = [IdleTxn EXCEPT !.st = "active", !.upd = upd, !.readTs = nextTs - 1]]
-    /\ UNCHANGED <<committed, nextTs, now, nval>>
+    /\ UNCHANGED <<committed, nextTs, now, nval, discardTs, hw, clog>>
 
+\* the caller of a managed DB must not read below the discard timestamp it announced (also
+\* not after a restart, which resets oracle.discardTs: hw remembers it)
 BeginAt(t, upd, ts) ==
     /\ Managed
+    /\ ts >= discardTs /\ ts >= hw
     /\ txn[t].st = "idle" /\ InOrder(t)
     /\ txn' = [txn EXCEPT ![t] = [IdleTxn EXCEPT !.st = "active", !.upd = upd, !.readTs = ts]]
-    /\ UNCHANGED <<committed, nextTs, now, nval>>
+    /\ UNCHANGED <<committed, nextTs, now, nval, discardTs, hw, clog>>
+
+\* the transaction's own pending writes, as entries at version readTs (PendingOverlay)
+Pending(t) == IF txn[t].upd THEN PendingAt(txn[t].writes, txn[t].haswr, txn[t].readTs) ELSE {}
 
 \* what Txn.Get returns
 GetResult(t, k) ==
     IF txn[t].upd /\ k \in txn[t].haswr
     THEN LET e == txn[t].writes[k] IN
          IF Dead(e, now) THEN Absent
-         ELSE [found |-> TRUE, val |-> e.val, ts |-> txn[t].readTs, um |-> e.um, exp |-> e.exp]
+         ELSE [found |-> TRUE, val |-> e.val, ts |-> txn[t].readTs, um |-> e.um, exp |-> e.exp, disc |-> e.disc]
     ELSE ReadAt(committed, k, txn[t].readTs, now)
 
 Get(t, k) ==
@@ -88,102 +94,183 @@ Get(t, k) ==
     /\ txn' = [txn EXCEPT ![t].reads = IF txn[t].upd /\ k \notin txn[t].haswr THEN @ \cup {k} ELSE @,
                           ![t].obs = IF txn[t].upd /\ k \notin txn[t].haswr
                                      THEN @ \cup {[k |-> k, res |-> GetResult(t, k)]} ELSE @]
-    /\ UNCHANGED <<committed, nextTs, now, nval>>
+    /\ UNCHANGED <<committed, nextTs, now, nval, discardTs, hw, clog>>
 
-\* Txn.SetEntry: ttl = 0 means no expiry, otherwise the entry expires at now + ttl
-\* (ttl may be negative in the generator to create already-expired entries)
+\* Txn.SetEntry; exp = 0 means no expiry, otherwise the absolute expiry time
 Set(t, k, um, exp, disc) ==
     /\ Active(t) /\ txn[t].upd
+    /\ k \notin Internal                 \* Txn.modify rejects the reserved prefix (C28)
     /\ txn' = [txn EXCEPT ![t].writes[k] = [k |-> k, ts |-> 0, val |-> nval, del |-> FALSE, um |-> um,
                                              exp |-> exp, disc |-> disc],
                           ![t].haswr = @ \cup {k}]
     /\ nval' = nval + 1
-    /\ UNCHANGED <<committed, nextTs, now>>
+    /\ UNCHANGED <<committed, nextTs, now, discardTs, hw, clog>>
 
 Delete(t, k) ==
     /\ Active(t) /\ txn[t].upd
+    /\ k \notin Internal
     /\ txn' = [txn EXCEPT ![t].writes[k] = [None EXCEPT !.k = k, !.del = TRUE],
                           ![t].haswr = @ \cup {k}]
-    /\ UNCHANGED <<committed, nextTs, now, nval>>
+    /\ UNCHANGED <<committed, nextTs, now, nval, discardTs, hw, clog>>
+
+\* A Set refused with ErrTxnTooBig (Txn.checkSize) leaves the transaction as it was.
+SetRejected(t, k) ==
+    /\ Active(t) /\ txn[t].upd
+    /\ UNCHANGED vars
 
 \* oracle.hasConflict: some key read by t was written by a commit after t's read ts
-Conflict(t) == \E c \in committed : c.ts > txn[t].readTs /\ c.k \in txn[t].reads
+\* (the conflict log is volatile: Restart empties it, SetDiscardTs prunes it)
+Conflict(t) == \E c \in clog : c[2] > txn[t].readTs /\ c[1] \in txn[t].reads
 
 WritesAt(t, ts) == {[txn[t].writes[k] EXCEPT !.ts = ts] : k \in txn[t].haswr}
 
-\* Txn.Commit in normal mode.  A transaction without writes just ends.
+NoOpenIter(t) == ~txn[t].it.open
+
+\* Txn.Commit / Txn.CommitWith in normal mode.  A transaction without writes just ends.
 Commit(t) ==
     /\ ~Managed
-    /\ Active(t)
+    /\ Active(t) /\ NoOpenIter(t)
     /\ IF txn[t].haswr = {}
        THEN /\ txn' = [txn EXCEPT ![t].st = "discarded"]
-            /\ UNCHANGED <<committed, nextTs>>
+            /\ UNCHANGED <<committed, nextTs, clog>>
        ELSE IF Conflict(t)
        THEN /\ txn' = [txn EXCEPT ![t].st = "conflict"]
-            /\ UNCHANGED <<committed, nextTs>>
+            /\ UNCHANGED <<committed, nextTs, clog>>
        ELSE /\ nextTs <= MaxTs
             /\ committed' = committed \cup WritesAt(t, nextTs)
+            /\ clog' = clog \cup {<<k, nextTs>> : k \in txn[t].haswr}
             /\ nextTs' = nextTs + 1
             /\ txn' = [txn EXCEPT ![t].st = "committed", ![t].cts = nextTs]
-    /\ UNCHANGED <<now, nval>>
+    /\ UNCHANGED <<now, nval, discardTs, hw>>
 
-\* Txn.CommitAt in managed mode: the caller picks the timestamp; conflict detection is
-\* still performed against the commits recorded so far.
+\* Txn.CommitAt in managed mode: the caller picks the timestamp (any order; not below the
+\* discard timestamp: oracle.newCommitTs asserts ts >= lastCleanupTs); conflict detection
+\* is still performed against the commits recorded so far.
 CommitAt(t, ts) ==
     /\ Managed
-    /\ Active(t)
+    /\ ts >= discardTs
+    /\ Active(t) /\ NoOpenIter(t)
     /\ IF txn[t].haswr = {}
        THEN /\ txn' = [txn EXCEPT ![t].st = "discarded"]
-            /\ UNCHANGED committed
+            /\ UNCHANGED <<committed, clog>>
        ELSE IF Conflict(t)
        THEN /\ txn' = [txn EXCEPT ![t].st = "conflict"]
-            /\ UNCHANGED committed
-       ELSE /\ committed' = {c \in committed : ~\E w \in WritesAt(t, ts) : w.k = c.k /\ w.ts = c.ts}
-                                \cup WritesAt(t, ts)
+            /\ UNCHANGED <<committed, clog>>
+       ELSE /\ committed' = Overlay(committed, WritesAt(t, ts))
+            /\ clog' = clog \cup {<<k, ts>> : k \in txn[t].haswr}
             /\ txn' = [txn EXCEPT ![t].st = "committed", ![t].cts = ts]
-    /\ UNCHANGED <<nextTs, now, nval>>
+    /\ UNCHANGED <<nextTs, now, nval, discardTs, hw>>
+
+\* A commit refused by the write path (ErrBlockedWrites while a drop is in progress or
+\* after Close, ErrTxnTooBig in sendToWriteCh): nothing becomes visible.
+CommitRejected(t, closed) ==
+    /\ Active(t) /\ NoOpenIter(t)
+    /\ txn[t].haswr # {}
+    /\ ~Conflict(t)
+    /\ txn' = [txn EXCEPT ![t].st = "rejected"]
+    \* refused because the DB was closed: the DB is opened again afterwards (see Restart);
+    \* otherwise the commit timestamp was already allocated (oracle.newCommitTs precedes
+    \* sendToWriteCh) and stays unused
+    /\ clog' = IF closed THEN {} ELSE clog
+    /\ discardTs' = IF closed THEN 0 ELSE discardTs
+    /\ IF Managed \/ closed THEN nextTs' = nextTs ELSE (nextTs <= MaxTs /\ nextTs' = nextTs + 1)
+    /\ UNCHANGED <<committed, now, nval, hw>>
 
 Discard(t) ==
-    /\ Active(t)
+    /\ Active(t) /\ NoOpenIter(t)
     /\ txn' = [txn EXCEPT ![t].st = "discarded"]
-    /\ UNCHANGED <<committed, nextTs, now, nval>>
+    /\ UNCHANGED <<committed, nextTs, now, nval, discardTs, hw, clog>>
 
 Tick ==
     /\ now < MaxNow
     /\ now' = now + 1
-    /\ UNCHANGED <<committed, nextTs, txn, nval>>
+    /\ UNCHANGED <<committed, nextTs, txn, nval, discardTs, hw, clog>>
 
-\* ---- iteration (Iterator with default options over the whole key space, or AllVersions)
-\* visible item of key k for transaction t, own writes layered over the snapshot
-ItemOf(t, k) == GetResult(t, k)
+\* ---- iteration
+\* The store an iterator of t created now ranges over: snapshot plus the pending writes as
+\* they are at creation time (newPendingWritesIterator copies them).
+IterStore(t, pw, phw) == Overlay(committed, IF txn[t].upd THEN PendingAt(pw, phw, txn[t].readTs) ELSE {})
 
-RECURSIVE SeqOfKeys(_, _)
-SeqOfKeys(S, rev) ==
-    IF S = {} THEN <<>>
-    ELSE LET m == IF rev THEN Max(S) ELSE CHOOSE x \in S : \A y \in S : x <= y
-         IN <<m>> \o SeqOfKeys(S \ {m}, rev)
+IterItems(t, o, pw, phw) == IterObs(IterStore(t, pw, phw), o, txn[t].readTs, now)
 
-\* keys an iterator yields: from seek key on, in direction rev
-IterKeys(t, from, rev) ==
-    LET ks == {k \in Keys : (IF rev THEN k <= from ELSE k >= from) /\ ItemOf(t, k).found}
-    IN SeqOfKeys(ks, rev)
+\* keys recorded as read by running the iterator (Iterator.Seek with a non-empty key, and
+\* Iterator.Item for every yielded item)
+IterReads(t, o, pw, phw) ==
+    LET s == IterItems(t, o, pw, phw)
+    IN (IF o.seek # 0 THEN {o.seek} ELSE {}) \cup {s[i].k : i \in 1..Len(s)}
 
-IterResult(t, from, rev) ==
-    LET ks == IterKeys(t, from, rev)
-    IN [i \in 1..Len(ks) |-> [k |-> ks[i], res |-> ItemOf(t, ks[i])]]
-
-\* Iterate = Seek(from) then Item()/Next() until exhausted.  In an update transaction the
-\* seek key and every yielded key are recorded as read (Iterator.Seek, Iterator.Item).
-Iterate(t, from, rev) ==
-    /\ Active(t)
-    /\ txn' = [txn EXCEPT ![t].reads = IF txn[t].upd
-                                       THEN @ \cup {from} \cup {IterKeys(t, from, rev)[i] : i \in 1..Len(IterKeys(t, from, rev))}
-                                       ELSE @,
-                          ![t].obs = IF txn[t].upd
+\* one-step iteration: NewIterator(o) ; Seek/Rewind ; loop ; Close
+IterateO(t, o) ==
+    /\ Active(t) /\ NoOpenIter(t)
+    /\ WellFormed(o)
+    /\ LET rd == IterReads(t, o, txn[t].writes, txn[t].haswr) IN
+       txn' = [txn EXCEPT ![t].reads = IF txn[t].upd THEN @ \cup rd ELSE @,
+                          ![t].obs = IF txn[t].upd /\ ~o.all /\ o.since = 0
                                      THEN @ \cup {[k |-> k, res |-> ReadAt(committed, k, txn[t].readTs, now)] :
-                                                    k \in ({from} \cup {IterKeys(t, from, rev)[i] : i \in 1..Len(IterKeys(t, from, rev))}) \ txn[t].haswr}
+                                                    k \in rd \ (txn[t].haswr \cup Internal)}
                                      ELSE @]
-    /\ UNCHANGED <<committed, nextTs, now, nval>>
+    /\ UNCHANGED <<committed, nextTs, now, nval, discardTs, hw, clog>>
+
+\* the plain iterator of the first version of this contract: default options, Seek(from)
+PlainOpts(from, rev) == [NoOpts EXCEPT !.seek = from, !.rev = rev]
+IterResult(t, from, rev) == IterItems(t, PlainOpts(from, rev), txn[t].writes, txn[t].haswr)
+Iterate(t, from, rev) == IterateO(t, PlainOpts(from, rev))
+
+\* two-step iteration: the pending writes are captured by NewIterator; Sets made between
+\* NewIterator and the loop are not seen by this iterator (iterator.go:451-460)
+IterOpen(t, o) ==
+    /\ Active(t) /\ NoOpenIter(t)
+    /\ WellFormed(o)
+    /\ txn' = [txn EXCEPT ![t].it = [open |-> TRUE, o |-> o, pw |-> txn[t].writes, phw |-> txn[t].haswr]]
+    /\ UNCHANGED <<committed, nextTs, now, nval, discardTs, hw, clog>>
+
+IterRunResult(t) == IterItems(t, txn[t].it.o, txn[t].it.pw, txn[t].it.phw)
+
+IterRun(t) ==
+    /\ Active(t) /\ txn[t].it.open
+    /\ txn' = [txn EXCEPT ![t].reads = IF txn[t].upd
+                                       THEN @ \cup IterReads(t, txn[t].it.o, txn[t].it.pw, txn[t].it.phw) ELSE @,
+                          ![t].it = NoIter]
+    /\ UNCHANGED <<committed, nextTs, now, nval, discardTs, hw, clog>>
+
+\* ---- discard watermark and compaction (retention contract, NumVersionsToKeep = 1)
+\* DB.SetDiscardTs: monotone (oracle.cleanupCommittedTransactions asserts it); the caller
+\* promises that no reader below it is or will be active.
+SetDiscardTs(ts) ==
+    /\ Managed
+    /\ ts >= discardTs /\ ts <= MaxTs
+    /\ \A t \in ActiveSet : txn[t].readTs >= ts
+    /\ discardTs' = ts
+    /\ clog' = {c \in clog : c[2] > ts}      \* cleanupCommittedTransactions
+    /\ UNCHANGED <<committed, nextTs, txn, now, nval, hw>>
+
+\* oracle.discardAtOrBelow: discardTs in managed mode, the read watermark otherwise (the
+\* read timestamp of the oldest open transaction, at most the last commit)
+Bound == IF Managed THEN discardTs
+         ELSE Min({txn[t].readTs : t \in ActiveSet} \cup {nextTs - 1})
+
+\* what a compaction may remove: a version at or below the bound that is shadowed by a newer
+\* version at or below the bound, or a dead version at or below the bound with nothing older
+\* left underneath it (levels.go subcompact: "lastValidVersion", "hasOverlap")
+Removable(e) ==
+    /\ e.ts <= Bound
+    /\ \/ \E f \in committed : f.k = e.k /\ f.ts > e.ts /\ f.ts <= Bound
+       \/ Dead(e, now) /\ ~\E g \in committed : g.k = e.k /\ g.ts < e.ts
+
+Compact(e) ==
+    /\ e \in committed
+    /\ Removable(e)
+    /\ committed' = committed \ {e}
+    /\ hw' = IF Bound > hw THEN Bound ELSE hw
+    /\ UNCHANGED <<nextTs, txn, now, nval, discardTs, clog>>
+
+\* Close + Open: nothing visible changes; the oracle starts with an empty conflict log and
+\* (managed mode) discardTs 0. Needs every transaction ended.
+Restart ==
+    /\ ActiveSet = {}
+    /\ clog' = {}
+    /\ discardTs' = 0
+    /\ UNCHANGED <<committed, nextTs, txn, now, nval, hw>>
 
 Next ==
     \/ \E t \in Txns, u \in BOOLEAN : Begin(t, u)
@@ -191,8 +278,14 @@ Next ==
     \/ \E t \in Txns, k \in Keys : Get(t, k) \/ Delete(t, k)
     \/ \E t \in Txns, k \in Keys, um \in UMs, exp \in Exps, d \in Discs : Set(t, k, um, exp, d)
     \/ \E t \in Txns : Commit(t) \/ Discard(t)
+    \/ "reject" \in Feat /\ \E t \in Txns : CommitRejected(t, FALSE)
     \/ \E t \in Txns, ts \in 1..MaxTs : CommitAt(t, ts)
-    \/ \E t \in Txns, k \in Keys, r \in IterDirs : Iterate(t, k, r)
+    \/ "iter" \in Feat /\ \E t \in Txns, k \in Keys, r \in IterDirs : Iterate(t, k, r)
+    \/ "split" \in Feat /\ \E t \in Txns, k \in Keys, r \in IterDirs : IterOpen(t, PlainOpts(k, r))
+    \/ \E t \in Txns : IterRun(t)
+    \/ "discard" \in Feat /\ \E ts \in 1..MaxTs : SetDiscardTs(ts)
+    \/ "compact" \in Feat /\ \E e \in committed : Compact(e)
+    \/ "restart" \in Feat /\ Restart
     \/ Tick
 
 Spec == Init /\ [][Next]_vars
@@ -204,31 +297,101 @@ Spec == Init /\ [][Next]_vars
 UniqueTs == \A a, b \in Txns :
     (a # b /\ txn[a].st = "committed" /\ txn[b].st = "committed" /\ ~Managed) => txn[a].cts # txn[b].cts
 
-\* C03: all-or-nothing: every committed transaction's writes are all present, none of a
-\* rejected one
+\* C03: all-or-nothing: every committed transaction's writes are all present (until a
+\* compaction may drop them), and every entry belongs to a committed transaction: none of a
+\* conflicting, rejected or discarded one
 AtomicVisibility ==
-    /\ \A t \in Txns : txn[t].st = "committed" /\ ~Managed => WritesAt(t, txn[t].cts) \subseteq committed
+    /\ \A t \in Txns : (txn[t].st = "committed" /\ ~Managed /\ hw = 0) => WritesAt(t, txn[t].cts) \subseteq committed
     /\ \A c \in committed : \E t \in Txns : txn[t].st = "committed" /\ txn[t].cts = c.ts /\ c.k \in txn[t].haswr
+
+\* C03: a rejected commit (conflict or refused by the write path) leaves no trace
+RejectedLeavesNoTrace ==
+    [][\A t \in Txns : (txn'[t].st \in {"conflict", "rejected"} /\ txn[t].st = "active")
+          => (committed' = committed /\ (txn'[t].st = "conflict" => nextTs' = nextTs))]_vars
 
 \* C02: commit-timestamp order is a serial order: every read a committed update
 \* transaction made from the snapshot returns the same answer when re-executed just
 \* before its commit timestamp (expiry aside: the clock is part of the read).
 Serializable ==
-    \A t \in Txns : (txn[t].st = "committed" /\ ~Managed) =>
+    \A t \in Txns : (txn[t].st = "committed" /\ ~Managed /\ hw = 0) =>
         \A o \in txn[t].obs :
             Cands(committed, o.k, txn[t].cts - 1) = Cands(committed, o.k, txn[t].readTs)
 
 \* C02 (other direction): a transaction is rejected only if there is a real overlap
 RejectedOnlyOnOverlap ==
-    \A t \in Txns : txn[t].st = "conflict" =>
+    \A t \in Txns : (txn[t].st = "conflict" /\ hw = 0) =>
         \E c \in committed : c.ts > txn[t].readTs /\ c.k \in txn[t].reads
 
-\* C01: a snapshot never changes under commits by others (action property)
+\* C01: a snapshot never changes under commits by others (action property); compaction
+\* steps may remove versions, but never one an open transaction can see (SnapshotRead)
 SnapshotStable ==
     [][\A t \in Txns : (txn[t].st = "active" /\ txn'[t].st = "active") =>
           \A k \in Keys : Cands(committed', k, txn[t].readTs) = Cands(committed, k, txn[t].readTs)
-          \/ Managed]_vars
+          \/ Managed \/ committed' \subseteq committed]_vars
+
+\* C01: every read an open transaction has made from its snapshot is repeatable: the
+\* current store still gives the same answer at its read timestamp, whatever commits,
+\* ticks (a live entry may expire) and compactions happened since
+SnapshotRead ==
+    \A t \in Txns : (txn[t].st = "active" /\ ~Managed) =>
+        \A o \in txn[t].obs :
+            LET r == ReadAt(committed, o.k, txn[t].readTs, now)
+            IN IF o.res.found THEN (r = o.res \/ (~r.found /\ o.res.exp # 0 /\ o.res.exp <= now))
+               ELSE ~r.found
+
+\* C04: a transaction's Get of a key it wrote returns the pending write; other transactions
+\* never see it
+OwnWrites ==
+    \A t \in Txns : (txn[t].st = "active" /\ txn[t].upd) =>
+        /\ \A k \in txn[t].haswr :
+              LET e == txn[t].writes[k] IN
+              GetResult(t, k) = IF Dead(e, now) THEN Absent
+                                ELSE [Obs(e) EXCEPT !.ts = txn[t].readTs]
+        /\ \A u \in Txns \ {t} : txn[u].st = "active" =>
+              \A k \in Keys \ txn[u].haswr : GetResult(u, k) = ReadAt(committed, k, txn[u].readTs, now)
+
+\* C04: the plain iterator agrees with Get on every key (own writes included)
+IterAgreesWithGet ==
+    \A t \in Txns : txn[t].st = "active" =>
+        LET s == IterResult(t, Min(Keys), FALSE) IN
+        /\ \A i \in 1..Len(s) : GetResult(t, s[i].k).found /\ GetResult(t, s[i].k).val = s[i].res.val
+        /\ \A k \in Keys \ Internal : GetResult(t, k).found => \E i \in 1..Len(s) : s[i].k = k
 
 \* C03: commit timestamps never decrease
 TsMonotone == [][nextTs' >= nextTs]_vars
+
+\* C36 / C12 contract: removing versions (compaction) never changes a read at or above the
+\* discard bound in force, at any timestamp
+ReadStableAboveDiscard ==
+    [][(committed' # committed /\ committed' \subseteq committed) =>
+          \A k \in Keys, ts \in 0..(MaxTs + 1) :
+              ts >= Bound => ReadAt(committed', k, ts, now) = ReadAt(committed, k, ts, now)]_vars
+
+\* C36: SetDiscardTs by itself changes no read
+DiscardTsInvisible ==
+    [][discardTs' # discardTs => committed' = committed]_vars
+
+\* C11: the next commit timestamp is above every stored version (also after Restart)
+NextTsAboveAll == ~Managed => \A c \in committed : c.ts < nextTs
+
+\* C07: a restart (empty conflict log, discardTs reset) changes no read and no timestamp
+IsRestartStep == (clog' = {} /\ clog # {}) \/ discardTs' < discardTs
+RestartInvisible == [][IsRestartStep => (committed' = committed /\ nextTs' = nextTs /\ now' = now /\ hw' = hw)]_vars
+
+\* C33: the passing of time alone never makes a key appear: an expired newest version hides
+\* the older versions exactly as a delete does
+TickNeverReveals ==
+    [][(now' # now) => \A k \in Keys, ts \in 0..(MaxTs + 1) :
+          ReadAt(committed', k, ts, now').found => ReadAt(committed, k, ts, now) = ReadAt(committed', k, ts, now')]_vars
+
+\* C33: what Get returns is never expired or deleted
+NeverReturnsDead ==
+    \A t \in Txns, k \in Keys : txn[t].st = "active" =>
+        LET r == GetResult(t, k) IN r.found => (r.exp = 0 \/ r.exp > now)
+
+\* in normal mode the conflict log always covers what an open transaction can conflict with:
+\* every committed entry newer than the read timestamp of an open transaction is in it
+ConflictLogSufficient ==
+    ~Managed => \A t \in ActiveSet : \A c \in committed :
+        c.ts > txn[t].readTs => <<c.k, c.ts>> \in clog
 =============================================================================
